@@ -76,6 +76,8 @@ pub fn install_panic_hook() {
             } else {
                 String::from("<non-string panic>")
             };
+            // a panic message can embed bytes that are not UTF-8 (it did: a str made with from_utf8_unchecked)
+            let message = String::from_utf8_lossy(message.as_bytes()).into_owned();
             let location = info.location().map(|l| format!("{}:{}", l.file(), l.line())).unwrap_or_default();
             let bt = std::backtrace::Backtrace::force_capture().to_string();
             let frame = first_repo_frame(&bt);
@@ -90,6 +92,12 @@ pub fn install_panic_hook() {
             PANICS.lock().unwrap().push((std::thread::current().id(), PanicRec { message, location, frame, node }));
         }));
     });
+}
+
+/// number of panics recorded for this thread so far (without consuming them)
+pub fn peek_panics() -> usize {
+    let me = std::thread::current().id();
+    PANICS.lock().unwrap().iter().filter(|(t, _)| *t == me).count()
 }
 
 pub fn take_panics() -> Vec<PanicRec> {
